@@ -211,3 +211,16 @@ CHECKS["C20"] = {
     "assumptions": ["a marker entry applied on a member implies every earlier membership entry was applied there (single log order)"],
     "min": {"any": {"books_checked": 20}},
 }
+
+CHECKS["C14"] = {
+    "pkg": "./c14", "run": "^TestC14$", "level": "fault_enumeration",
+    "mem_gb": {"quick": 0, "thorough": 0},
+    "technique": "runtime monitor on an in-process cluster of real servers: catalogue equality (id, dimension, metric, partition ids in order, replica assignment) of every live node vs the acknowledged model after a logical marker, across create/delete sequences, forced catalogue-log compaction, restarts, and a node catching up by snapshot",
+    "level_text": "Monitor on real clusters of 1..3 nodes with real start-up wiring: seeded sequences of create / delete / compaction / restart / node-down-while-the-catalogue-changes-and-the-others-compact; after each restart or catch-up and at the end (and again after restarting every node) each live node's List must equal the acknowledged catalogue exactly, deleted datasets must not be listed and no raft group of their partitions may still run on any node.",
+    "level_note": "Sequences are sampled from a fixed seeded family; crash = in-process teardown at step boundaries (mid-write crash points are C03's); replica-set changes by the allocator occur only as a side effect of membership changes.",
+    "shards": {"quick": 8, "thorough": 16},
+    "timeout": {"quick": 900, "thorough": 3400},
+    "rule": "case c = 1..3 nodes + 6..11 steps of create/delete/compaction/restart/lagging-node; non-trivial = at least one deletion acknowledged; distinct = digest of the step list",
+    "assumptions": ["a marker dataset visible on a node implies every earlier catalogue entry was applied there"],
+    "min": {"any": {"catalogues_compared": 20}},
+}
